@@ -5,6 +5,7 @@ import Nject.Slots
 import Nject.Validate
 import Nject.Helpers
 import Nject.Condense
+import Nject.Reorder
 /-
   Line-protocol driver: reads the case blocks the Go harness writes, rebuilds the compiled
   chain from the implementation's own S7 dump, runs `Exec` and `Spec` with the scripted
@@ -136,6 +137,8 @@ structure FLine where
   shun : Bool := false
   wanted : Bool := false
   synthetic : Bool := false
+  reorder : Bool := false
+  gaveUp : Bool := false          -- reorder: "dependencies not met, excluded"
 deriving Repr, Inhabited
 
 def parseF (toks : List String) : FLine :=
@@ -148,7 +151,9 @@ def parseF (toks : List String) : FLine :=
     memo := hasFlag toks "flags" "memoized", parallel := hasFlag toks "flags" "parallel",
     singleton := hasFlag toks "flags" "singleton", required := hasFlag toks "flags" "required",
     desired := hasFlag toks "flags" "desired", shun := hasFlag toks "flags" "shun",
-    wanted := hasFlag toks "flags" "wanted", synthetic := hasFlag toks "flags" "synthetic" }
+    wanted := hasFlag toks "flags" "wanted", synthetic := hasFlag toks "flags" "synthetic",
+    reorder := hasFlag toks "flags" "reorder",
+    gaveUp := ((field toks "why").splitOn "dependencies_not_met").length > 1 }
 
 def parseScript (toks : List String) : Script :=
   { idx := (toks.getD 1 "0").toNat?.getD 0, kind := field toks "kind",
@@ -224,6 +229,9 @@ structure CaseAcc where
   scripts : List Script := []
   flines : List FLine := []       -- of the S7 dump
   inS7 : Bool := false
+  stage : String := ""
+  s3 : List FLine := []           -- reversed
+  s4 : List FLine := []           -- reversed
   vcount : Nat := 0
   dv : List (Nat × Nat) := []
   uv : List (Nat × Nat) := []
@@ -293,8 +301,21 @@ def fmtBindErr : BindErr → String
 def dedup (l : List Nat) : List Nat := l.foldl (fun acc x => if acc.contains x then acc else acc ++ [x]) []
 
 /-- S5/S6: the model's include flags, remaps, slot partition and zero lists -/
+def hasReorder (a : CaseAcc) : Bool := a.pdescs.any (·.reorder)
+
+/-- C17 validators on the implementation's S3 → S4 dumps -/
+def runReorderCheck (a : CaseAcc) : List String :=
+  if a.s4.isEmpty then [] else
+  let item := fun (f : FLine) => ({ id := f.id, reorder := f.reorder } : RItem)
+  let item2 := fun (f : FLine) => ({ id := f.id, reorder := f.reorder, isInvoke := f.cls == "invoke-func",
+                                     isFinal := f.cls == "final-func", gaveUp := f.gaveUp } : RItem2)
+  let ok := fun (b : Bool) => if b then "ok" else "bad"
+  [s!"m4 {ok (reorderValidB (a.s3.reverse.map item) (a.s4.reverse.map item))} prefix={ok (staticPrefixKeptB (a.s3.reverse.map item2) (a.s4.reverse.map item2))} final={ok (finalLastB (a.s4.reverse.map item2))} reorder={if hasReorder a then 1 else 0} gaveup={fmtTys ((a.s4.filter (·.gaveUp)).map (·.id))}"]
+
 def runBindModel (a : CaseAcc) : List String :=
-  match bindModel stdTyInfo a.enodes.reverse a.pdescs a.invSig a.initSig with
+  let order4 := if hasReorder a && !a.s4.isEmpty then some (a.s4.reverse.map (·.id)) else none
+  let cannot4 := (a.s4.filter (·.gaveUp)).map (·.id)
+  match bindModel stdTyInfo a.enodes.reverse a.pdescs a.invSig a.initSig order4 cannot4 with
   | .error e => ["m5 err " ++ fmtBindErr e]
   | .ok bo =>
     let fl := bo.chain.map fun f =>
@@ -348,9 +369,9 @@ def runValidators (a : CaseAcc) : List String :=
 
 /-- run all ops through Exec and Spec; returns output lines -/
 def runCase (a : CaseAcc) : List String :=
-  if !a.bindOk then [s!"case {a.n}", runEdit a] ++ runAssemble a ++ runBindModel a ++ ["skip nobind", "end"] else
+  if !a.bindOk then [s!"case {a.n}", runEdit a] ++ runAssemble a ++ runReorderCheck a ++ runBindModel a ++ ["skip nobind", "end"] else
   match mkCompiled a.vcount a.flines.reverse a.dv a.uv with
-  | none => [s!"case {a.n}", runEdit a] ++ runAssemble a ++ runBindModel a ++ ["skip nodump", "end"]
+  | none => [s!"case {a.n}", runEdit a] ++ runAssemble a ++ runReorderCheck a ++ runBindModel a ++ ["skip nodump", "end"]
   | some c =>
     let b := mkBeh a.scripts
     let wf := match checkWF c with
@@ -372,7 +393,7 @@ def runCase (a : CaseAcc) : List String :=
       (ls ++ evs.map ("s " ++ ·) ++ [s!"s ret {fmtVals res}"], s')) ([], c.specBindState)
     let (fl, fnode) := (buildProg c.run c.fin).flatten
     let prog := if fl.map (·.id) == c.run.map (·.id) && fnode.id == c.fin.id then "prog ok" else "prog fail"
-    [s!"case {a.n}", runEdit a] ++ runAssemble a ++ runBindModel a ++ runValidators a ++ [wf, sup, prog] ++ xl ++ sl ++ ["end"]
+    [s!"case {a.n}", runEdit a] ++ runAssemble a ++ runReorderCheck a ++ runBindModel a ++ runValidators a ++ [wf, sup, prog] ++ xl ++ sl ++ ["end"]
 
 
 /-! ### C20 helper records -/
@@ -467,9 +488,15 @@ def stepLine (a : CaseAcc) (line : String) : CaseAcc × List String :=
                           bef := fieldNat toks "bef", aft := fieldNat toks "aft",
                           nonFinal := fieldNat toks "nf" == 1 } :: a.enodes }, [])
   | "dump" :: stage :: _ =>
-    if stage == "S7" then ({ a with inS7 := true, flines := [], vcount := fieldNat toks "vcount" }, [])
-    else ({ a with inS7 := false }, [])
-  | "f" :: _ => if a.inS7 then ({ a with flines := parseF toks :: a.flines }, []) else (a, [])
+    if stage == "S7" then ({ a with inS7 := true, stage := stage, flines := [], vcount := fieldNat toks "vcount" }, [])
+    else if stage == "S3" then ({ a with inS7 := false, stage := stage, s3 := [] }, [])
+    else if stage == "S4" then ({ a with inS7 := false, stage := stage, s4 := [] }, [])
+    else ({ a with inS7 := false, stage := stage }, [])
+  | "f" :: _ =>
+    if a.inS7 then ({ a with flines := parseF toks :: a.flines }, [])
+    else if a.stage == "S3" then ({ a with s3 := parseF toks :: a.s3 }, [])
+    else if a.stage == "S4" then ({ a with s4 := parseF toks :: a.s4 }, [])
+    else (a, [])
   | ["dv", s] => ({ a with dv := parseVmap s }, [])
   | ["uv", s] => ({ a with uv := parseVmap s }, [])
   | "bind" :: "ok" :: _ => ({ a with bindOk := true }, [])
